@@ -298,6 +298,28 @@ ForkResumeFails(r) ==
   \o F([i \in DOMAIN heldFork |-> heldFork[i].id] = [i \in DOMAIN canonFork |-> canonFork[i].id],
        "reconnected_client_does_not_converge_on_canonical_chain")
 
+\* the message-level transcription (Pipeline.tla: PResume for the cursor, then a fresh pipeline fed the chain; model-checked
+\* with reconnections by MCReconnect) against the observed resumed stream (drift, not a verdict)
+ForkResumeDrift(r) ==
+  LET steps == r.steps  o == r.obs  c == r.cfg
+      first == IF steps = <<>> THEN 0 ELSE steps[1].num
+      pre == IF first <= LowestInit(prog) THEN <<>>
+             ELSE [k \in 1..(first - LowestInit(prog)) |-> Blk(LowestInit(prog) + k - 1)]
+      full == pre \o CanonAfter(steps, Len(steps))
+      OnFull(id) == \E j \in DOMAIN full : full[j].id = id
+      Par(id) == IF \E i \in DOMAIN r.arrival : r.arrival[i].id = id
+                 THEN r.arrival[CHOOSE i \in DOMAIN r.arrival : r.arrival[i].id = id].parent ELSE ""
+      RECURSIVE Anc(_, _)
+      Anc(id, fuel) == IF OnFull(id) \/ id = "" \/ fuel = 0 THEN id ELSE Anc(Par(id), fuel - 1)
+      jid == Anc(r.from.curid, 64)
+      jnum == IF OnFull(jid) THEN full[CHOOSE j \in DOMAIN full : full[j].id = jid].num ELSE 0
+      res == PResume([h |-> r.from.curnum, br |-> r.from.curid], [h |-> jnum, br |-> jid])
+      fed == SelectSeq(full, LAMBDA x : x.num < c.stop)
+      pred == res.msgs \o PMsgs(PInit, [i \in DOMAIN fed |-> [k |-> "new", b |-> [h |-> fed[i].num, br |-> fed[i].id], j |-> NoBlk]], res.start)
+      obs == [i \in DOMAIN o.resp |-> [k |-> o.resp[i].kind, b |-> [h |-> o.resp[i].num, br |-> o.resp[i].id]]]
+  IN IF o.panic # "" \/ o.err # "" \/ ~OnFull(jid) THEN <<>>
+     ELSE F(pred = obs, "drift:resumed_messages_differ_from_pipeline_model")
+
 ForkResumeProps(sig) == IF Len(sig) >= 6 /\ SubSeq(sig, 1, 6) = "resume" THEN <<"C12", "C03">>
                         ELSE IF Len(sig) >= 14 /\ SubSeq(sig, 1, 14) = "request_failed" THEN <<"C03", "C12", "C01">>
                         ELSE <<"C03">>
@@ -336,7 +358,8 @@ Next ==
      ELSE IF r.ev = "forkresume" THEN
         LET f == TagForkResume(ForkResumeFails(r)) IN
         /\ bad' = IF f = <<>> THEN bad ELSE Append(bad, [i |-> l, why |-> f, dbg |-> <<>>])
-        /\ UNCHANGED <<drift, prog, seg, ref, orig>>
+        /\ drift' = LET d == ForkResumeDrift(r) IN IF d = <<>> THEN drift ELSE Append(drift, [i |-> l, why |-> d])
+        /\ UNCHANGED <<prog, seg, ref, orig>>
      ELSE
         LET from == IF r.cfg.cursor = "" THEN 0 ELSE ParseFrom(r.cfg.cursor)
             f == TagAll(RunFails(r, from) \o ResumeFails(r, from), r)
